@@ -113,8 +113,22 @@ func TestDeadlock(t *testing.T) {
 		var a, b sync.Mutex
 		var wg sync.WaitGroup
 		wg.Add(2)
-		GoNamed("x", func() { defer wg.Done(); MutexLock(&a, 1); Yield(2); MutexLock(&b, 3); MutexUnlock(&b, 4); MutexUnlock(&a, 5) })
-		GoNamed("y", func() { defer wg.Done(); MutexLock(&b, 1); Yield(2); MutexLock(&a, 3); MutexUnlock(&a, 4); MutexUnlock(&b, 5) })
+		GoNamed("x", func() {
+			defer wg.Done()
+			MutexLock(&a, 1)
+			Yield(2)
+			MutexLock(&b, 3)
+			MutexUnlock(&b, 4)
+			MutexUnlock(&a, 5)
+		})
+		GoNamed("y", func() {
+			defer wg.Done()
+			MutexLock(&b, 1)
+			Yield(2)
+			MutexLock(&a, 3)
+			MutexUnlock(&a, 4)
+			MutexUnlock(&b, 5)
+		})
 		wg.Wait()
 		Resume(3)
 	}
